@@ -231,6 +231,60 @@ def big_contents(ctx):
                         return
 
 
+
+def mode_confusion(ctx):
+    """the content-encryption algorithm identifier and its parameters are not authenticated: a blob whose identifier is rewritten to any
+    other algorithm the library knows (read from its algorithm table at run time) or to a well-known unauthenticated AES mode, with the
+    parameters re-encoded in that mode's form (bare IV octet string …) and the content cut to whole blocks with every value of the octet
+    that steers the last block's padding, must still never decrypt to different plaintext (real crypto, both layouts)"""
+    import dataclasses
+    from dpapi_ng._blob import DPAPINGBlob
+    from dpapi_ng import _crypto
+    from props.c06 import template
+    rec = [r for r in clientsim.standard_roots(real=True) if r.secret_algorithm == "ECDH_P256"][0]
+    data = bytes(range(100, 132))                                # 32 octets: ciphertext ‖ tag is whole AES blocks
+    dc = refdc.KeyServer(now=(361, 17, 13))
+    dc.add_root(rec)
+    s = clientsim.Sim(dc, real_crypto=True)
+    with s.world():
+        s.load(rec)
+        out = s.protect(data, "S-1-5-21-1-2-3-1103", rk=rec.id)
+    if not out.startswith("done "):
+        return
+    try:
+        b0 = DPAPINGBlob.unpack(bytes.fromhex(out[5:]))
+        gcm = b0.enc_content_algorithm
+        nonce = b0.enc_content_parameters[4:16]
+    except Exception:  # noqa
+        return
+    known = sorted({str(getattr(m, "value", m)) for m in getattr(_crypto, "AlgorithmOID", [])} - {gcm})
+    aes = "2.16.840.1.101.3.4.1."
+    wellknown = [aes + str(k) for k in (41, 42, 43, 44, 47, 2, 6, 22, 26)] + ["1.2.840.113549.3.7", "1.2.840.113549.1.9.16.3.18"]
+    octs = lambda x: b"\x04" + bytes([len(x)]) + x
+    param_forms = [b0.enc_content_parameters, octs(nonce + bytes(4)), octs(bytes(16)), octs(nonce), None, b"\x30" + bytes([18]) + octs(bytes(16)), b"\x05\x00"]
+    ct = b0.enc_content
+    whole = ct[:len(ct) // 16 * 16]
+    for oid in known + [o for o in wellknown if o not in known]:
+        sweep = oid in known            # (an identifier the library dispatches on gets the full padding sweep)
+        for pi, prm in enumerate(param_forms):
+            contents = [ct, whole, whole[:-16]] + ([whole[:-17] + bytes([v]) + whole[-16:] for v in range(256)] if sweep else [])
+            for ci, content in enumerate(contents):
+                if not content:
+                    continue
+                for layout in ("in-envelope", "trailing"):
+                    m = template(dataclasses.replace(b0, enc_content_algorithm=oid, enc_content_parameters=prm, enc_content=content), layout == "in-envelope")
+                    s2 = clientsim.Sim(dc, real_crypto=True)
+                    with s2.world():
+                        s2.load(rec)
+                        got = s2.unprotect(m, no_reply=True)
+                    ctx.count("real:mode_confusion:" + ("library_algorithm" if sweep else "foreign_algorithm"))
+                    if got is not None and got.startswith("done ") and got != "done " + hx(data):
+                        ctx.violation("a modified blob decrypts to different plaintext",
+                                      {"config": [rec.hash_name, rec.secret_algorithm, "cache", layout], "mutation": f"mode_confusion:{oid}:params#{pi}:content#{ci}",
+                                       "blob": hx(m), "real_crypto": True}, got[:80], "error or the original plaintext")
+                        return
+
+
 def work(job):
     """one (config, layout) in a worker process → (cases, violations, counts)"""
     import random, check
@@ -305,6 +359,7 @@ def run(ctx):
     ctx.count("configurations", len(jobs))
     history_forgeries(ctx)
     big_contents(ctx)
+    mode_confusion(ctx)
 
 
 def search(ctx, broken, disagreements):
